@@ -163,7 +163,7 @@ def judge_uspfs_tables(B, algo, hooks, ctx):
 
 # -------------------------------------------------------------- check_case
 @skippable
-def check_case(ctx, prop, case, algos, report=None, hooks=None, tables=True, selfcheck=False):
+def check_case(ctx, prop, case, algos, report=None, hooks=None, tables=True, selfcheck=False, history=True):
     report = report or (lambda mon, msg, **d: ctx.viol(f"{prop}.{mon}", case, msg, **d))
     B = bridge.Built(case)
     kind = SC.kind_of(algos[0])
@@ -211,6 +211,18 @@ def check_case(ctx, prop, case, algos, report=None, hooks=None, tables=True, sel
         if algo == algos[0]:
             one, nopt = suite.one_optimal_mapping(B)
             ctx.sig(suite.super_signature(B, algo, mn, None, one), len(B.G.leaves()) >= 2 and (mn == INF or mn > 0))
+    if history and B.G.is_binary() and B.S.is_binary() and len(B.G.leaves()) >= 2 and sum(map(ord, repr(sorted(case["leafmap"].items())))) % 3 == 0:
+        # history: the cost table of the SAME input object is changed in place (dup and floss raised: stays coherent),
+        # then every algorithm runs again on it
+        c2 = dict(B.c, dup=B.c["dup"] + 2, floss=B.c["floss"] + 1, hgt=(INF if (B.c["hgt"] != INF and B.c["dup"] % 2 == 0) else (3 if B.c["hgt"] == INF else B.c["hgt"] + 1)))
+        B.set_costs_inplace(c2)
+        for algo in algos:
+            mn2, _ = suite.model_solve(B, algo, canonical=False)
+            obs = SC.call(algo, B.inp, ALL if len(B.G.leaves()) <= 6 else ANY)
+            ctx.count("evaluations")
+            ctx.count("mon.after_inplace_cost_change")
+            for mon, msg, d in judge(B, algo, obs, mn2, B.root_order):
+                report(mon, f"{algo} after the cost table of the same input object was changed in place to {c2}: {msg}", algo=algo, **d)
     return B
 
 
@@ -322,7 +334,7 @@ def known_generic(ctx, prop, kind, finding):
     case = wit["case"]
     got = []
     algos = wit["expect"]["algos"]
-    check_case(ctx, prop, case, algos, report=lambda mon, msg, **d: got.append((mon, msg, d)), hooks=None)
+    check_case(ctx, prop, case, algos, report=lambda mon, msg, **d: got.append((mon, msg, d)), hooks=None, history=False)
     exp = wit["expect"]
     matched = [g for g in got if g[0] in exp["monitors"] and g[2].get("algo") in exp["algos"]]
     other = [g for g in got if g not in matched]
